@@ -156,6 +156,9 @@ pub struct WorldResult {
     /// Dump of a fresh device restarted from the final KV map.
     pub final_restart: Option<DevDump>,
     pub setup_failed: bool,
+    pub tap_stats: (u64, u64),
+    /// controller-side session snapshots after each step (for the snapshot monitor)
+    pub ctl_snaps: Vec<Vec<VerifSession>>,
 }
 
 #[derive(Clone, Debug)]
@@ -445,6 +448,7 @@ fn run_world_inner(p: &WorldParams, simkv: SimKv) -> WorldResult {
         res.datagrams = t.len() as u64;
     });
     res.tap_violations = tap.violations();
+    res.tap_stats = tap.stats();
     res.log = log.borrow().clone();
     res.kv_final = simkv.map();
     res.kv_log_len = simkv.mut_count();
